@@ -363,9 +363,23 @@ def r1_tables_agree(ctx):
         if isinstance(n, ast.For) and "fit_properties" in norm(n.iter):
             wloop = n
     rloop = None
+    sel_in_loop = False
     for n in walk_no_nested(ld, False):
         if isinstance(n, ast.For) and norm(n.iter) == "fkeys":
             rloop = n
+    if rloop is None:
+        # the selection of the 'fit ' attributes written as a test inside
+        # the loop over all attributes
+        for n in walk_no_nested(ld, False):
+            if isinstance(n, ast.For) and len(n.body) == 1 and isinstance(
+                    n.body[0], ast.If) and not n.body[0].orelse and \
+                    "startswith('fit ')" in norm(n.body[0].test) and \
+                    "attrs" in norm(n.iter):
+                rloop = ast.For(target=n.target, iter=n.iter,
+                                body=n.body[0].body, orelse=[],
+                                type_comment=None)
+                ast.copy_location(rloop, n)
+                sel_in_loop = True
     if wloop is None or rloop is None:
         raise Undecided("cannot find the fit-properties loops of writer and "
                         "loader")
@@ -424,7 +438,7 @@ def r1_tables_agree(ctx):
     ok_r = rp in (["fkey[4:]"], ["fkey.removeprefix('fit ')"])
     sel = [norm(n) for n in ast.walk(ld) if isinstance(n, ast.ListComp)
            and "startswith('fit ')" in norm(n)]
-    ctx.check(ok_w and ok_r and bool(sel), wloop,
+    ctx.check(ok_w and ok_r and (bool(sel) or sel_in_loop), wloop,
               "attribute prefix 'fit ' written and stripped consistently",
               f"attribute naming of fit properties disagrees: writer {wp}, "
               f"reader {rp}")
